@@ -9,6 +9,9 @@ import Hts.Lemmas.BamStream
 import Hts.Lemmas.BamSpec
 import Hts.Lemmas.BamReadSpec
 import Hts.Lemmas.BamTotal
+import Hts.Lemmas.BamOverBgzf
+import Hts.Lemmas.BamCoord
+import Hts.Props.C16
 namespace Hts.Props.C05
 open Hts.Model.Bam
 
@@ -118,20 +121,37 @@ theorem stream_roundtrip_none {n : Nat} (rs : List Record) (h : ∀ r ∈ rs, WF
     ∃ s, encodeAll rs = .ok s ∧ readAll .none n s = (rs.map norm, none) :=
   readAll_encodeAll .none rs h
 
-/-- The whole file, for every header: the header codec is a parameter with its round-trip law (C07); the header read
-back is the header written and the records follow in order, then io.EOF. -/
-theorem file_roundtrip {H : Type} (hc : HeaderCodec H) (om : Omit) (hd : H) (rs : List Record)
-    (h : ∀ r ∈ rs, WF (hc.nrefs hd) r) :
-    ∃ bytes, writeFile hc hd rs = .ok bytes ∧ readFile hc om bytes = some (hd, rs.map (expected om), none) :=
-  readFile_writeFile hc om hd rs h
+/-- The whole file under the BGZF layer's contents. The binary header (C07) is NOT modelled here; what is assumed of it
+is the hypothesis `HeaderFramed decode hdrBytes hd` about the ONE header at hand: on its bytes followed by any data
+the header decoder returns `hd` and leaves exactly the data (this is not a law for all headers — C07's
+`binary_roundtrip_witness` shows the decoded header can differ from the encoded one for non-canonical URIs — and its
+"stops exactly at the end of the header section" part is proved nowhere, only checked by the correspondence).  Under
+it: the header is returned, then the records in order, then io.EOF, in every Omit mode. -/
+theorem file_roundtrip {H : Type} (decode : List Byte → Option (H × List Byte)) (nrefs : H → Nat)
+    (hdrBytes : List Byte) (hd : H) (hf : HeaderFramed decode hdrBytes hd) (om : Omit) (rs : List Record)
+    (h : ∀ r ∈ rs, WF (nrefs hd) r) :
+    ∃ bytes, writeFile hdrBytes rs = .ok bytes ∧
+      readFile decode nrefs om bytes = some (hd, rs.map (expected om), none) :=
+  readFile_writeFile decode nrefs hdrBytes hd hf om rs h
 
-/-- ... and under the BGZF layer, for every write concurrency `wc` and read concurrency `rd` (the BGZF codec is a
-parameter with its round-trip law, C01) -/
-theorem file_roundtrip_bgzf {H : Type} (bg : BgzfCodec) (hc : HeaderCodec H) (om : Omit) (wc rd : Nat) (hd : H)
-    (rs : List Record) (h : ∀ r ∈ rs, WF (hc.nrefs hd) r) :
-    ∃ bytes, writeFile hc hd rs = .ok bytes ∧
-      (bg.read rd (bg.write wc bytes)).bind (readFile hc om) = some (hd, rs.map (expected om), none) :=
-  readFile_writeFile_bgzf bg hc om wc rd hd rs h
+open Hts.Model Hts.Model.BgzfWriter Hts.Model.Member in
+/-- BAM over BGZF with C01's models instantiated (no law parameter for BGZF): the operations `bam.NewWriter`, `Write`
+per record and `Close` perform on the BGZF writer (`Write(header)`, `Flush`, one `Write` per frame, `Close`:
+`bamScript`) are run through C01's writer/member/reader models. For every lawful DEFLATE/CRC-32 codec within zlib's
+bound (C01's `Codec`, the only assumption), every header section and every list of representable records: `Close`
+returns nil, the BGZF reader decodes the file into blocks whose concatenation is the header section followed by the
+record frames, and after the header section `Read` returns the records in order, then io.EOF, in every Omit mode.
+Write/read CONCURRENCY (`wc`, `rd`) does not occur in these sequential models: for C05 it is correspondence-only
+(files written with wc 0..3 and read with rd 0..3); its irrelevance is C12's and C02's subject. -/
+theorem file_roundtrip_bgzf (c : Codec) (hb : Bounded c.toCodecFns) (hdrBytes : List Hts.Model.Bam.Byte) (om : Omit) {n : Nat}
+    (rs : List Record) (h : ∀ r ∈ rs, WF n r) :
+    ∃ fs s, frames rs = .ok fs ∧ encodeAll rs = .ok s ∧
+      (closeOutput c.toCodecFns {} (after (bamScript hdrBytes fs)).emitted).2 = none ∧
+      ∃ blocks, readStream c.toCodecFns (closeOutput c.toCodecFns {} (after (bamScript hdrBytes fs)).emitted).1
+          = some blocks ∧
+        blocks.flatten.map ofU8 = hdrBytes ++ s ∧
+        readAll om n ((blocks.flatten.map ofU8).drop hdrBytes.length) = (rs.map (expected om), none) :=
+  bam_over_bgzf c hb hdrBytes om rs h
 
 /-- no two representable records that differ in anything but "absent vs all-0xff qualities" are written as the same
 bytes -/
@@ -159,27 +179,51 @@ theorem fuel_unreachable (om : Omit) (n : Nat) (s : List Byte) :
     (readAll om n s).2 ≠ some .fuel ∧ readRecord om n s ≠ .fault .fuel ∧ parseAux s ≠ .error .fuel :=
   ⟨readAll_ne_fuel om n s, readRecord_ne_fuel om n s, parseAux_ne_fuel s⟩
 
-/-- the reader is total on ARBITRARY bytes: whatever the stream, every `Read` ends in a record, `io.EOF` or a Go
-`error` — never in a panic (the model's only panic outcome is the writer's) and never by exhausting the model's fuel;
-`readAll` stops after finitely many records. -/
-theorem read_never_panics (om : Omit) (n : Nat) (s : List Byte) :
+/-- BY CONSTRUCTION of the reader model — `decodeBody`, `parseAux`, `readRecord` have no panic outcome at all (the only
+panic in `Fault` is the writer's `panicAuxType`) — no read ends in that outcome.  This says nothing about the Go code
+by itself: that `bam.Reader.Read` never panics on arbitrary bytes is C11's claim (its panic-site inventory and sweep);
+here it is only what makes "every read ends in a record, io.EOF or a Go error" a well-formed summary of the model,
+whose agreement with the code on malformed streams is checked by the `c05.dec` correspondence. -/
+theorem reader_model_has_no_panic_outcome (om : Omit) (n : Nat) (s : List Byte) :
     (readAll om n s).2 ≠ some .panicAuxType ∧ readRecord om n s ≠ .fault .panicAuxType ∧
       parseAux s ≠ .error .panicAuxType :=
   ⟨readAll_ne_panic om n s, readRecord_ne_panic om n s, parseAux_ne_panic s⟩
 
+/-! ### the bin field and C16 -/
+
+/-- the bin the writer model computes is C16's `recordBin` of the record's flags, position and CIGAR (so C16's
+theorems about `Coord.recordBin` are about the two bytes `encode_is_spec` takes as given) -/
+theorem bin_agrees_with_C16 (r : Record) :
+    Hts.Model.Coord.recordBin (unmapped r) (mateUnmapped r) r.pos (r.cigar.map coordOp) = some (recordBin r) :=
+  recordBin_agree r
+
+/-- hence, by C16's `bin_spec`: for a record at position `p` (`0 ≤ p < 2^29`) whose alignment ends at `e` with
+`p ≤ e ≤ 2^29`, the bin bytes hold the specification's `reg2bin(p, e)` — of one base when the alignment consumes no
+reference (`e = p`) -/
+theorem bin_is_reg2bin (r : Record) (p e : Nat) (hp : r.pos = (p : Int)) (he : recordEnd r = (e : Int))
+    (h1 : p ≤ e) (h2 : e ≤ 2 ^ 29) (h3 : p < 2 ^ 29) :
+    recordBin r = Hts.Spec.Coord.reg2bin p (if e = p then p + 1 else e) 14 5 := by
+  have ha := recordBin_agree r
+  have hend := recordEnd_agree r
+  rw [hp] at ha hend
+  rw [he] at hend
+  have := Hts.Props.C16.bin_spec (unmapped r) (mateUnmapped r) p (r.cigar.map coordOp) e hend h1 h2 h3
+  rw [this] at ha
+  exact (Option.some.inj ha).symm
+
 /-! ### non-vacuity: a concrete non-trivial record is well-formed, and what the theorems say about it -/
 
 /-- name "r1", on reference 0 at 100, mate on reference 1, 3M1I, 5 bases (odd), qualities absent, aux fields
-`XA:Z:hi`, `NM:C:5`, `XB:B:s,1,-2,3`, `XE:B:f` (empty array), `XH:H:1AE3` -/
+`XA:Z:hi`, `NM:C:5`, `XB:B:s,1,-2,3`, `XE:B:f` (empty array), `XH:H:1AE300` (in memory: the three bytes 1a e3 00) -/
 def sample : Record :=
   { name := [114#8, 49#8], ref := some 0, pos := 100, mapq := 30#8, cigar := [0x30#32, 0x11#32], flags := 0x63#16,
     mateRef := some 1, matePos := 250, tempLen := -154, seqLen := 5, seq := [0x12#8, 0x48#8, 0xf0#8], qual := none,
     aux := [[88#8, 65#8, 90#8, 104#8, 105#8], [78#8, 77#8, 67#8, 5#8],
             [88#8, 66#8, 66#8, 115#8, 3#8, 0#8, 0#8, 0#8, 1#8, 0#8, 0xfe#8, 0xff#8, 3#8, 0#8],
             [88#8, 69#8, 66#8, 102#8, 0#8, 0#8, 0#8, 0#8],
-            [88#8, 72#8, 72#8, 49#8, 65#8, 69#8, 51#8]] }
+            [88#8, 72#8, 72#8, 0x1a#8, 0xe3#8, 0x00#8]] }
 
-example : WF 2 sample :=
+theorem sample_wf : WF 2 sample :=
   { nrefs_ok := by decide, name_len := by decide, name_nonul := by decide, ref_ok := by simp [sample],
     mate_ok := by simp [sample], pos_ok := by decide, matePos_ok := by decide, tempLen_ok := by decide,
     cigar_count := by decide, seq_len := by decide,
@@ -189,15 +233,42 @@ example : WF 2 sample :=
       refine ⟨?_, ?_, ?_, ?_, ?_⟩ <;> rfl,
     size_ok := by decide +kernel }
 example : padOK sample.seqLen sample.seq = true := by rfl
-example : (encodeRecord sample).toOption.map List.length = some 95 := by rfl
+example : (encodeRecord sample).toOption.map List.length = some 97 := by rfl
 example : (match encodeRecord sample with | .ok bs => readAll .none 2 (bs ++ bs) | .error _ => ([], none))
     = ([norm sample, norm sample], none) := by decide +kernel
 example : (norm sample).qual = some [0xff#8, 0xff#8, 0xff#8, 0xff#8, 0xff#8] := by rfl
-/-- a non-trivial alignment the format can represent: 3M1I, bases "ACGTN", aux `NM:C:5`, `XA:Z:hi`, `XB:B:s,1,-2` -/
+/-! ### outside `WF`: what the writer does with records the format cannot represent -/
+
+/-- `Writer.Write` checks only the name length and the quality length. A position (likewise mate position, template
+length) outside int32 is NOT rejected: it is truncated to its low 32 bits, silently, and the file reads back as a
+different record. Witness: position 2^40 + 5 comes back as 5. (More than 65535 CIGAR operations: `n_cigar_op` holds
+the count modulo 65536 while all operations are written, so the record is misparsed; a NUL inside a name or a `Z`
+value is written as is. The model mirrors all of these and the harness compares them with the code.) -/
+theorem write_outside_wf_witness :
+    ∃ (r : Record) (bs : List Byte), ¬ WF 2 r ∧ encodeRecord r = .ok bs ∧
+      ∃ r', readAll .none 2 bs = ([r'], none) ∧ r.pos = 1099511627781 ∧ r'.pos = 5 := by
+  refine ⟨{ sample with pos := 1099511627781 }, _, ?_, rfl, ?_⟩
+  · intro h
+    have := h.pos_ok.2
+    revert this; decide
+  · exact ⟨norm { sample with pos := 5 }, by decide +kernel, rfl, rfl⟩
+
+/-- the hypotheses of the two file theorems are satisfiable: a (toy) header decoder that is framed on a 4-byte header
+section, and C01's toy codec (lawful and within the bound) for the BGZF layer -/
+example : HeaderFramed (fun bs : List Byte => some ((), bs.drop 4)) [66#8, 65#8, 77#8, 1#8] () := by
+  intro rest; rfl
+example := file_roundtrip (fun bs : List Byte => some ((), bs.drop 4)) (fun _ => 2) [66#8, 65#8, 77#8, 1#8] ()
+  (by intro rest; rfl) .aux [sample, sample] (by simp [sample_wf])
+example := file_roundtrip_bgzf Hts.Model.Member.Toy.codec Hts.Model.Member.Toy.bounded [66#8, 65#8, 77#8, 1#8] .none
+  (n := 2) [sample, sample] (by simp [sample_wf])
+
+/-- a non-trivial alignment the format can represent: 3M1I, bases "ACGTN", aux `NM:C:5`, `XA:Z:hi`, `XB:B:s,1,-2`,
+`XH:H:1AE300` (the digit text) -/
 def sampleAln : Hts.Spec.Bam.Alignment :=
   { refID := 0, pos := 100, mapq := 30, bin := 4681, flag := 99, nextRefID := 1, nextPos := 250, tlen := -154,
     readName := [114#8, 49#8], cigar := [(3, 0), (1, 1)], seq := [1, 2, 4, 8, 15], qual := none,
-    aux := [((78#8, 77#8), .num .C 5), ((88#8, 65#8), .str [104#8, 105#8]), ((88#8, 66#8), .arr .s [1, -2])] }
+    aux := [((78#8, 77#8), .num .C 5), ((88#8, 65#8), .str [104#8, 105#8]), ((88#8, 66#8), .arr .s [1, -2]),
+            ((88#8, 72#8), .hex [49#8, 65#8, 69#8, 51#8, 48#8, 48#8])] }
 
 example : sampleAln.Valid 2 :=
   { nrefs_lt := by decide, refID := by decide, nextRefID := by decide, pos := by decide, nextPos := by decide,
@@ -205,11 +276,20 @@ example : sampleAln.Valid 2 :=
     cigar := by simp [sampleAln], seq := by simp [sampleAln], qual := by simp [sampleAln],
     aux := by
       simp only [sampleAln, List.mem_cons, List.not_mem_nil, or_false, forall_eq_or_imp, forall_eq]
-      refine ⟨⟨?_, by decide, by decide⟩, ⟨?_, by decide, by decide⟩, ⟨?_, by decide, by decide⟩⟩
+      refine ⟨⟨?_, by decide, by decide⟩, ⟨?_, by decide, by decide⟩, ⟨?_, by decide, by decide⟩,
+        ⟨?_, by decide, by decide⟩⟩
       · simp [Hts.Spec.Bam.AuxValue.Valid, Hts.Spec.Bam.Elem.inRange, Hts.Spec.Bam.Elem.signed, Hts.Spec.Bam.Elem.width]
       · simp [Hts.Spec.Bam.AuxValue.Valid]
-      · simp [Hts.Spec.Bam.AuxValue.Valid, Hts.Spec.Bam.Elem.inRange, Hts.Spec.Bam.Elem.signed, Hts.Spec.Bam.Elem.width],
+      · simp [Hts.Spec.Bam.AuxValue.Valid, Hts.Spec.Bam.Elem.inRange, Hts.Spec.Bam.Elem.signed, Hts.Spec.Bam.Elem.width]
+      · simp [Hts.Spec.Bam.AuxValue.Valid, Hts.Spec.Bam.isHexDigit],
     size := by decide +kernel }
+
+/-- an `H` value: in memory the bytes 1a e3, in the file the digits "1AE3" and a NUL (SAMv1 §4.2.4), and back;
+an odd number of digits or a non-digit is an error -/
+example : encAux [88#8, 72#8, 72#8, 0x1a#8, 0xe3#8] = [88#8, 72#8, 72#8, 49#8, 65#8, 69#8, 51#8, 0#8] := by rfl
+example : parseAux [88#8, 72#8, 72#8, 49#8, 97#8, 69#8, 51#8, 0#8] = .ok [[88#8, 72#8, 72#8, 0x1a#8, 0xe3#8]] := by rfl
+example : parseAux [88#8, 72#8, 72#8, 49#8, 65#8, 69#8, 0#8] = .error .errAuxHexOdd := by rfl
+example : parseAux [88#8, 72#8, 72#8, 49#8, 71#8, 0#8] = .error .errAuxHexDigit := by rfl
 
 /-- what the model says the code (as repaired) does on inputs outside the specification, each checked against the
 implementation by the harness: CIGAR op code 11 is written and read back like any other; a `B` array with an
